@@ -201,6 +201,26 @@ impl Sched {
   fn unopened(&self) -> Vec<String> {
     self.calls.lock().unwrap().iter().filter(|r| r.gated && !r.opened).map(|r| r.did.clone()).collect()
   }
+  /// The still closed gates among the calls logged at positions `from..`, as (position, DID); also the log length.
+  fn closed_since(&self, from: usize) -> (usize, Vec<(usize, String)>) {
+    let c = self.calls.lock().unwrap();
+    let v = c.iter().enumerate().skip(from).filter(|(_, r)| r.gated && !r.opened).map(|(i, r)| (i, r.did.clone())).collect();
+    (c.len(), v)
+  }
+  /// Opens the gate of the call logged at position `idx` (if it is still closed).
+  fn open_at(&self, idx: usize) -> Option<String> {
+    let (gate, did) = {
+      let mut c = self.calls.lock().unwrap();
+      let r = c.get_mut(idx)?;
+      if !r.gated || r.opened {
+        return None;
+      }
+      r.opened = true;
+      (r.gate.clone(), r.did.clone())
+    };
+    gate.open();
+    Some(did)
+  }
 }
 
 struct CountWaker(AtomicU64);
@@ -525,6 +545,15 @@ fn drive<T>(mut fut: LocalFut<'_, T>, sched: &Sched, order: &[String], hostile: 
   let mut log = DriveLog::default();
   let mut res = Driven::Stalled;
   let mut budget = 64 + 8 * order.len() as u32;
+  // planned position of every DID (first occurrence); the closed gates seen so far, keyed (planned position, log position):
+  // the smallest element is "the first DID of the planned order that is pending, earliest call first", calls the plan
+  // does not mention come last in log order. Kept incrementally so that lists of thousands of DIDs stay cheap.
+  let mut rank: BTreeMap<&str, usize> = BTreeMap::new();
+  for (i, d) in order.iter().enumerate() {
+    rank.entry(d.as_str()).or_insert(i);
+  }
+  let mut closed: BTreeSet<(usize, usize)> = BTreeSet::new();
+  let mut scanned = 0usize;
   while budget > 0 {
     budget -= 1;
     let w0 = cw.0.load(Ordering::SeqCst);
@@ -561,17 +590,20 @@ fn drive<T>(mut fut: LocalFut<'_, T>, sched: &Sched, order: &[String], hostile: 
       }
     }
     // pick the next gate in the planned completion order
-    let pending = sched.unopened();
+    let (len, fresh) = sched.closed_since(scanned);
+    scanned = len;
+    for (i, d) in fresh {
+      closed.insert((rank.get(d.as_str()).copied().unwrap_or(usize::MAX), i));
+    }
     let mut opened = None;
-    for d in order {
-      if pending.iter().any(|p| p == d) {
-        opened = sched.open_where(|r| &r.did == d);
+    while let Some((r, i)) = closed.pop_first() {
+      if let Some(d) = sched.open_at(i) {
+        if r == usize::MAX {
+          log.unplanned += 1;
+        }
+        opened = Some(d);
         break;
       }
-    }
-    if opened.is_none() && !pending.is_empty() {
-      opened = sched.open_where(|_| true);
-      log.unplanned += 1;
     }
     match opened {
       Some(d) => {
@@ -585,6 +617,18 @@ fn drive<T>(mut fut: LocalFut<'_, T>, sched: &Sched, order: &[String], hostile: 
   }
   let _ = catch(move || drop(fut));
   (res, log)
+}
+
+/// Lists with more distinct DIDs than this are "long": coarse class descriptors, abbreviated messages.
+const LONG_LIST: usize = 12;
+
+/// The first few elements of a long sequence (for one-line descriptions; the case JSON holds everything).
+fn brief<T: std::fmt::Debug>(v: &[T]) -> String {
+  if v.len() <= 16 {
+    format!("{:?}", v)
+  } else {
+    format!("{:?}...(+{} more)", &v[..8], v.len() - 8)
+  }
 }
 
 fn err_info(e: &RError) -> (String, String) {
@@ -816,7 +860,7 @@ impl Ctx {
 
   /// `resolve_multiple(list)` with gates opened in `order`.
   #[allow(clippy::too_many_arguments)]
-  fn multi_case(&mut self, b: &Built, flavour: Flavour, table: &Table, list: &[CoreDID], strs: &[String], order: &[String], hostile: bool, cross_check: bool) {
+  fn multi_case<D: DID>(&mut self, b: &Built, flavour: Flavour, table: &Table, list: &[D], strs: &[String], order: &[String], hostile: bool, cross_check: bool, input_ty: &str) {
     self.rep.eval();
     self.rep.inc("multi_cases");
     b.sched.reset();
@@ -826,16 +870,32 @@ impl Ctx {
     }
     let distinct: BTreeSet<&String> = strs.iter().collect();
     let any_fail = preds.values().any(|p| p.fails());
-    let case = json!({"op":"resolve_multiple","flavour":flavour.name(),"dids":strs,"completion_order":order,"table":table.describe()});
-    {
+    let long = distinct.len() > LONG_LIST;
+    let case = if input_ty == "core" {
+      json!({"op":"resolve_multiple","flavour":flavour.name(),"dids":strs,"completion_order":order,"table":table.describe()})
+    } else {
+      json!({"op":"resolve_multiple","flavour":flavour.name(),"input_type":input_ty,"dids":strs,"completion_order":order,"table":table.describe()})
+    };
+    if long {
+      // coarse class of a long list: size bucket, which outcome kinds occur, whether the completion order meets a failure
+      let kinds: BTreeSet<&str> = preds.values().map(|p| p.tag()).collect();
+      let first_fail = order.iter().any(|d| preds.get(d).map(|p| p.fails()).unwrap_or(false));
+      self.rep.distinct(
+        "nontrivial",
+        &format!("multi-long|{}|{}|d{}|dup{}|{}|ff{}", flavour.name(), input_ty, distinct.len().next_power_of_two(), strs.len() > distinct.len(), kinds.into_iter().collect::<Vec<_>>().join(""), first_fail),
+      );
+      self.rep.inc("long_list_cases");
+      self.rep.count("long_list_distinct_dids", distinct.len() as u64);
+    } else {
       let mut tags: Vec<&str> = preds.values().map(|p| p.tag()).collect();
       tags.sort();
       let first_fail = order.iter().position(|d| preds.get(d).map(|p| p.fails()).unwrap_or(false));
       // completion order expressed as ranks over the sorted distinct DIDs
       let ranks: Vec<usize> = order.iter().filter_map(|d| distinct.iter().position(|x| *x == d)).collect();
+      let ty = if input_ty == "core" { String::new() } else { format!("|{}", input_ty) };
       self.rep.distinct(
         "nontrivial",
-        &format!("multi|{}|n{}|d{}|{}|ff{:?}", flavour.name(), strs.len(), distinct.len(), tags.join(""), first_fail),
+        &format!("multi|{}|n{}|d{}|{}|ff{:?}{}", flavour.name(), strs.len(), distinct.len(), tags.join(""), first_fail, ty),
       );
       if order.len() >= 2 {
         self.rep.distinct("orders", &format!("{}|{:?}", flavour.name(), ranks));
@@ -868,7 +928,8 @@ impl Ctx {
       Driven::Done(r) => r,
     };
     self.rep.inc("oracle_checks");
-    if self.rep.want_sample() && order.len() >= 3 && !any_fail {
+    let delivered: BTreeSet<&str> = calls.iter().filter(|c| c.delivered()).map(|c| c.did.as_str()).collect();
+    if self.rep.want_sample() && order.len() >= 3 && !any_fail && !long {
       self.rep.sample(json!({"dids":strs,"completion_order":log.opened,"flavour":flavour.name(),"result":"Ok","entries":got.as_ref().map(|m| m.len()).unwrap_or(0)}));
     }
     match &got {
@@ -890,13 +951,13 @@ impl Ctx {
         // no entry may exist before its handler has completed
         let undelivered: Vec<&String> = distinct
           .iter()
-          .filter(|d| matches!(preds.get(**d), Some(Pred::Call { .. })) && !calls.iter().any(|c| &c.did == **d && c.delivered()))
+          .filter(|d| matches!(preds.get(**d), Some(Pred::Call { .. })) && !delivered.contains(d.as_str()))
           .copied()
           .collect();
         if !undelivered.is_empty() {
           self.rep.violation(
             "multi-ok-before-all-handlers-completed",
-            &format!("resolve_multiple returned Ok after completions {:?} while the handlers for {:?} had not completed", log.opened, undelivered),
+            &format!("resolve_multiple returned Ok after {} completions {:?} while the handlers for {} DIDs {:?} had not completed", log.opened.len(), brief(&log.opened), undelivered.len(), brief(&undelivered)),
             case.clone(),
           );
         }
@@ -907,9 +968,31 @@ impl Ctx {
           let extra: Vec<&String> = keys.difference(&want_keys).collect();
           self.rep.violation(
             "multi-keys-not-the-distinct-inputs",
-            &format!("resolve_multiple({:?}) completion order {:?}: {} entries, missing {:?}, extra {:?}", strs, log.opened, map.len(), missing, extra),
+            &format!(
+              "resolve_multiple({}) [{} DIDs, {} distinct, given as {}] completion order {}: {} entries, missing {} {}, extra {} {}",
+              brief(strs), strs.len(), want_keys.len(), input_ty, brief(&log.opened), map.len(), missing.len(), brief(&missing), extra.len(), brief(&extra)
+            ),
             case.clone(),
           );
+        }
+        // looking an input DID up must lead to the entry stored under that very DID
+        {
+          let mut seen: BTreeSet<&str> = BTreeSet::new();
+          for (d, s) in list.iter().zip(strs) {
+            if !seen.insert(s.as_str()) {
+              continue;
+            }
+            self.rep.inc("multi_lookups_checked");
+            if let Some((k, _)) = map.get_key_value(d) {
+              if k.as_str() != s {
+                self.rep.violation(
+                  "multi-lookup-yields-entry-of-other-did",
+                  &format!("looking up {:?} in the result of resolve_multiple (input type {}) yields the entry stored under {:?}", s, input_ty, k.as_str()),
+                  case.clone(),
+                );
+              }
+            }
+          }
         }
         if map.len() != keys.len() {
           self.rep.violation("multi-repeated-key", "result map holds several entries for one DID string", case.clone());
@@ -921,7 +1004,7 @@ impl Ctx {
               if want != have {
                 self.rep.violation(
                   "multi-entry-differs-from-single-resolution",
-                  &format!("entry for {:?} (completion order {:?}) is entry {} seen {:?} id {}; resolving it alone gives entry {} seen {:?} id {}", k.as_str(), log.opened, have.entry, have.seen, have.core.id(), want.entry, want.seen, want.core.id()),
+                  &format!("entry for {:?} (completion order {:?}) is entry {} seen {:?} id {}; resolving it alone gives entry {} seen {:?} id {}", k.as_str(), brief(&log.opened), have.entry, have.seen, have.core.id(), want.entry, want.seen, want.core.id()),
                   case.clone(),
                 );
               }
@@ -944,20 +1027,20 @@ impl Ctx {
         if !any_fail {
           self.rep.violation(
             "multi-spurious-error",
-            &format!("resolve_multiple({:?}) failed with {}({}) although every DID resolves", strs, v, det),
+            &format!("resolve_multiple({}) [{} DIDs] failed with {}({}) although every DID resolves", brief(strs), strs.len(), v, det),
             case.clone(),
           );
         } else {
           // the failure must already have been delivered: an immediate one, or a failing handler whose gate is open
           let cause_available = preds.iter().any(|(d, p)| match p {
             Pred::Unsupported | Pred::ParseFail { .. } => true,
-            Pred::Call { result: Err(_), .. } => calls.iter().any(|c| &c.did == d && c.delivered()),
+            Pred::Call { result: Err(_), .. } => delivered.contains(d.as_str()),
             _ => false,
           });
           if !cause_available {
             self.rep.violation(
               "multi-error-before-any-failure",
-              &format!("resolve_multiple({:?}) failed with {}({}) after completions {:?}, before any failing handler had completed", strs, v, det, log.opened),
+              &format!("resolve_multiple({}) failed with {}({}) after completions {}, before any failing handler had completed", brief(strs), v, det, brief(&log.opened)),
               case.clone(),
             );
           }
@@ -972,14 +1055,16 @@ impl Ctx {
     // "each equal to what single resolution returns": ask the library itself, one DID at a time
     if cross_check {
       if let Ok(map) = &got {
-        let entries: Vec<(CoreDID, Out)> = {
-          let mut v: Vec<(CoreDID, Out)> = map.iter().map(|(k, o)| (k.clone(), o.clone())).collect();
-          v.sort_by(|a, b| a.0.cmp(&b.0));
-          v
+        let entries: Vec<(D, Out)> = {
+          let mut v: Vec<(D, Out)> = map.iter().map(|(k, o)| (k.clone(), o.clone())).collect();
+          v.sort_by(|a, b| a.0.as_str().cmp(b.0.as_str()));
+          // long lists: a spread sample of the entries
+          let step = (v.len() / 48).max(1);
+          v.into_iter().step_by(step).collect()
         };
         for (k, have) in entries {
           let s = k.as_str().to_string();
-          if let Some(Ok(alone)) = self.single_case(b, flavour, table, &k, &s, false, "core") {
+          if let Some(Ok(alone)) = self.single_case(b, flavour, table, &k, &s, false, input_ty) {
             self.rep.inc("multi_vs_single_compared");
             if alone != have {
               self.rep.violation(
@@ -1011,7 +1096,73 @@ fn rand_token(rng: &mut Rng, n: usize) -> String {
   (0..n).map(|_| CH[rng.usize(CH.len())] as char).collect()
 }
 
+/// The members of a generated JWK before they are spelled out as JSON text.
+struct JwkMembers {
+  m: Vec<(String, Value)>,
+  private: bool,
+  kname: &'static str,
+  mask: u32,
+}
+
 fn gen_jwk(rng: &mut Rng, idx: u64) -> JwkCase {
+  let jm = gen_jwk_members(rng, idx);
+  spell_jwk(rng, &jm, false)
+}
+
+/// A JSON string literal for `s` in which some characters are written as \uXXXX escapes (the same string to any JSON parser).
+fn escaped_literal(rng: &mut Rng, s: &str) -> String {
+  let mut out = String::from("\"");
+  for c in s.chars() {
+    let must = c == '"' || c == '\\' || (c as u32) < 0x20;
+    if (c as u32) < 0x80 && (must || rng.chance(1, 5)) {
+      if rng.bool() {
+        out.push_str(&format!("\\u{:04x}", c as u32));
+      } else {
+        out.push_str(&format!("\\u{:04X}", c as u32));
+      }
+    } else if c == '/' && rng.chance(1, 2) {
+      out.push_str("\\/");
+    } else {
+      out.push(c);
+    }
+  }
+  out.push('"');
+  out
+}
+
+/// One JSON spelling of the members: member order, whitespace style and (with `escapes`) \u escapes inside member names
+/// and string values are drawn from `rng`; the JSON value is the same for every spelling.
+fn spell_jwk(rng: &mut Rng, jm: &JwkMembers, escapes: bool) -> JwkCase {
+  let mut m = jm.m.clone();
+  rng.shuffle(&mut m);
+  let ws = rng.below(3);
+  let (sep, colon, open, close) = match ws {
+    0 => (",", ":", "{", "}"),
+    1 => (", ", ": ", "{ ", " }"),
+    _ => (",\n", " : ", "{\n", "\n}"),
+  };
+  let esc = escapes && rng.chance(1, 2);
+  let body: Vec<String> = m
+    .iter()
+    .map(|(k, v)| {
+      if esc {
+        let key = if rng.chance(1, 3) { escaped_literal(rng, k) } else { Value::String(k.clone()).to_string() };
+        let val = match v {
+          Value::String(x) => escaped_literal(rng, x),
+          other => other.to_string(),
+        };
+        format!("{}{}{}", key, colon, val)
+      } else {
+        format!("{}{}{}", Value::String(k.clone()), colon, v)
+      }
+    })
+    .collect();
+  let text = format!("{}{}{}", open, body.join(sep), close);
+  let value: Value = serde_json::from_str(&text).expect("harness JWK text is JSON");
+  JwkCase { text, value, private: jm.private, class: format!("{}|m{}|ws{}|priv{}{}", jm.kname, jm.mask, ws, jm.private, if esc { "|esc" } else { "" }) }
+}
+
+fn gen_jwk_members(rng: &mut Rng, idx: u64) -> JwkMembers {
   let kind = idx % 9;
   let label = rng.below(1 << 20);
   let mut m: Vec<(String, Value)> = Vec::new();
@@ -1125,17 +1276,7 @@ fn gen_jwk(rng: &mut Rng, idx: u64) -> JwkCase {
     mask |= 128;
     m.push(("x5u".into(), json!(format!("https://certs.example/k/{}.pem", rng.below(1000)))));
   }
-  rng.shuffle(&mut m);
-  let ws = rng.below(3);
-  let (sep, colon, open, close) = match ws {
-    0 => (",", ":", "{", "}"),
-    1 => (", ", ": ", "{ ", " }"),
-    _ => (",\n", " : ", "{\n", "\n}"),
-  };
-  let body: Vec<String> = m.iter().map(|(k, v)| format!("{}{}{}", Value::String(k.clone()), colon, v)).collect();
-  let text = format!("{}{}{}", open, body.join(sep), close);
-  let value: Value = serde_json::from_str(&text).expect("harness JWK text is JSON");
-  JwkCase { text, value, private, class: format!("{}|m{}|ws{}|priv{}", kname, mask, ws, private) }
+  JwkMembers { m, private, kname, mask }
 }
 
 impl Ctx {
@@ -1497,6 +1638,399 @@ impl Ctx {
 }
 
 // ===========================================================================
+// did:jwk lists of identifiers that are easy to confuse
+// ===========================================================================
+
+impl Ctx {
+  /// `resolve_multiple(list)` over did:jwk identifiers on a resolver with the built-in handler; `items` maps every DID string of
+  /// the list to the JWK the harness spelled into it. One entry per distinct identifier *string*, each the document of that
+  /// very identifier and equal to what `resolve` returns for it.
+  fn jwk_list_case<D: DID>(&mut self, b: &Built, flavour: Flavour, list: &[D], strs: &[String], items: &BTreeMap<String, JwkCase>, input_ty: &str, class: &str) {
+    self.rep.eval();
+    self.rep.inc("jwk_list_cases");
+    b.sched.reset();
+    let want_keys: BTreeSet<String> = strs.iter().cloned().collect();
+    self.rep.distinct("nontrivial", &format!("jwk-list|{}|{}|n{}|d{}|{}", flavour.name(), input_ty, strs.len(), want_keys.len(), class));
+    let case = json!({
+      "op":"resolve_multiple","flavour":flavour.name(),"input_type":input_ty,"dids":strs,
+      "jwks": want_keys.iter().map(|d| json!({"did":d,"jwk":items[d].text})).collect::<Vec<_>>()
+    });
+    let fut = match catch(|| b.res.resolve_multiple(list)) {
+      Ok(f) => f,
+      Err(p) => {
+        self.rep.violation(&format!("resolve_multiple-panic@{}", p.file_only()), &format!("{} at {}", p.msg, p.loc()), case);
+        return;
+      }
+    };
+    let (out, _) = drive(fut, &b.sched, &[], false);
+    let map = match out {
+      Driven::Done(Ok(map)) => map,
+      Driven::Done(Err(e)) => {
+        let (v, det) = err_info(&e);
+        self.rep.violation("multi-spurious-error", &format!("resolve_multiple over public did:jwk identifiers {:?} (given as {}) failed with {}({})", brief(strs), input_ty, v, det), case);
+        return;
+      }
+      Driven::Panicked(p) => {
+        self.rep.violation(&format!("resolve_multiple-panic@{}", p.file_only()), &format!("polling resolve_multiple panicked: {} at {}", p.msg, p.loc()), case);
+        return;
+      }
+      Driven::Stalled => {
+        self.rep.violation("multi-stalled", "resolve_multiple over did:jwk identifiers never completes", case);
+        return;
+      }
+    };
+    self.rep.inc("oracle_checks");
+    self.rep.inc("jwk_list_ok");
+    let keys: BTreeSet<String> = map.keys().map(|k| k.as_str().to_string()).collect();
+    if keys != want_keys {
+      let missing: Vec<&String> = want_keys.difference(&keys).collect();
+      let extra: Vec<&String> = keys.difference(&want_keys).collect();
+      self.rep.violation(
+        "multi-keys-not-the-distinct-inputs",
+        &format!(
+          "resolve_multiple({}) [{} did:jwk DIDs, {} distinct, given as {}]: {} entries, missing {} {}, extra {} {}",
+          brief(strs), strs.len(), want_keys.len(), input_ty, map.len(), missing.len(), brief(&missing), extra.len(), brief(&extra)
+        ),
+        case.clone(),
+      );
+    }
+    if map.len() != keys.len() {
+      self.rep.violation("multi-repeated-key", "result map holds several entries for one DID string", case.clone());
+    }
+    let mut seen: BTreeSet<&str> = BTreeSet::new();
+    for (d, s) in list.iter().zip(strs) {
+      if !seen.insert(s.as_str()) {
+        continue;
+      }
+      self.rep.inc("multi_lookups_checked");
+      match map.get_key_value(d) {
+        Some((k, _)) if k.as_str() != s => self.rep.violation(
+          "multi-lookup-yields-entry-of-other-did",
+          &format!("looking up {:?} in the result of resolve_multiple (input type {}) yields the entry stored under {:?}", s, input_ty, k.as_str()),
+          case.clone(),
+        ),
+        Some(_) => {}
+        None => {
+          if keys.contains(s) {
+            self.rep.violation(
+              "multi-lookup-misses-own-entry",
+              &format!("the result of resolve_multiple (input type {}) has a key {:?} but looking that DID up finds nothing", input_ty, s),
+              case.clone(),
+            );
+          }
+        }
+      }
+      // the entry stored under this identifier string, whatever the key type's notion of equality
+      let Some((_, have)) = map.iter().find(|(k, _)| k.as_str() == s) else { continue };
+      self.rep.inc("jwk_list_entries_checked");
+      if have.via != "core" || have.entry != NO_ENTRY {
+        self.rep.violation("did-jwk-result-not-from-builtin-handler", &format!("entry for {:?} is a document of handler entry {}", s, have.entry), case.clone());
+      }
+      self.check_jwk_doc("resolve_multiple", s, &items[s], &have.core);
+      // "each equal to what single resolution returns": ask the library
+      if let Ok(fut) = catch(|| b.res.resolve(d)) {
+        if let (Driven::Done(Ok(alone)), _) = drive(fut, &b.sched, &[], false) {
+          self.rep.inc("multi_vs_single_compared");
+          if &alone != have {
+            self.rep.violation(
+              "multi-vs-library-single-mismatch",
+              &format!("entry for {:?} (id {}) differs from what resolve() returns for it (id {})", s, have.core.id(), alone.core.id()),
+              case.clone(),
+            );
+          }
+        }
+      }
+    }
+    let calls = b.sched.snapshot();
+    if !calls.is_empty() {
+      self.rep.violation(
+        "did-jwk-dispatched-to-other-handler",
+        &format!("resolving did:jwk identifiers called harness handler entry {} (registered under another method or replaced)", calls[0].entry),
+        case,
+      );
+    }
+  }
+
+  /// Lists that hold several identifiers of one key: the same JWK spelled differently (member order, whitespace, \u escapes),
+  /// the same key material with another optional member (equal RFC 7638 thumbprint, different JWK), unrelated keys and literal
+  /// duplicates; given as `DIDJwk`s and as `CoreDID`s.
+  fn jwk_spelling_section(&mut self, rng: &mut Rng, n: u64) {
+    let mut built: Vec<(Flavour, Built)> = Vec::new();
+    for (i, fl) in [Flavour::SendSync, Flavour::Single, Flavour::SendSync, Flavour::Single].into_iter().enumerate() {
+      let mut specs = vec![Spec { entry: self.entry(), method: "jw".into(), kind: Kind::Hdoc, beh: Beh::Echo, gated: false }];
+      if i >= 2 {
+        specs.push(Spec { entry: self.entry(), method: "jwk".into(), kind: Kind::Hdoc, beh: Beh::Swap, gated: false });
+        specs.push(Spec { entry: self.entry(), method: "jwkk".into(), kind: Kind::Hdoc, beh: Beh::Echo, gated: false });
+      }
+      let table = Table::new(specs);
+      let Some(mut b) = self.build(fl, &table) else { return };
+      if let Err(p) = b.res.attach_jwk() {
+        self.rep.violation(&format!("attach-panic@{}", p.file_only()), &p.msg, json!({"what":"attach_did_jwk_handler"}));
+        return;
+      }
+      built.push((fl, b));
+    }
+    fn public_members(rng: &mut Rng) -> JwkMembers {
+      loop {
+        let idx = rng.below(8); // never the symmetric family
+        let jm = gen_jwk_members(rng, idx);
+        if !jm.private {
+          return jm;
+        }
+      }
+    }
+    for _ in 0..n {
+      let base = public_members(rng);
+      let mut group: Vec<JwkCase> = Vec::new();
+      let spellings = 2 + rng.usize(3);
+      for _ in 0..spellings {
+        group.push(spell_jwk(rng, &base, true));
+      }
+      let siblings = rng.usize(3);
+      for _ in 0..siblings {
+        // same key material, one optional member more or less
+        let mut sib = JwkMembers { m: base.m.clone(), private: false, kname: base.kname, mask: base.mask };
+        let name = *rng.pick(&["kid", "use", "alg"]);
+        if let Some(pos) = sib.m.iter().position(|(k, _)| k == name) {
+          sib.m.remove(pos);
+        } else {
+          let v = match name {
+            "kid" => {
+              let n = 1 + rng.usize(12);
+              json!(rand_token(rng, n))
+            }
+            "use" => json!(*rng.pick(&["sig", "enc"])),
+            _ => json!(*rng.pick(&["EdDSA", "ES256", "ES256K", "ES384", "RS256"])),
+          };
+          sib.m.push((name.to_string(), v));
+        }
+        group.push(spell_jwk(rng, &sib, true));
+      }
+      let others = rng.usize(3);
+      for _ in 0..others {
+        let o = public_members(rng);
+        let esc = rng.bool();
+        group.push(spell_jwk(rng, &o, esc));
+      }
+      let mut items: BTreeMap<String, JwkCase> = BTreeMap::new();
+      let mut strs: Vec<String> = Vec::new();
+      for jc in group {
+        let did = format!("did:jwk:{}", url_encode(jc.text.as_bytes()));
+        self.rep.distinct("nontrivial", &format!("jwk|{}", jc.class));
+        strs.push(did.clone());
+        items.insert(did, jc);
+      }
+      // pairs of different identifiers that encode the same JWK value
+      let respelled = {
+        let v: Vec<(&String, &JwkCase)> = items.iter().collect();
+        let mut c = 0u64;
+        for a in 0..v.len() {
+          for b in a + 1..v.len() {
+            if v[a].1.value == v[b].1.value {
+              c += 1;
+            }
+          }
+        }
+        c
+      };
+      self.rep.count("jwk_respelled_pairs", respelled);
+      for _ in 0..rng.usize(3) {
+        let d = strs[rng.usize(strs.len())].clone();
+        strs.push(d);
+      }
+      rng.shuffle(&mut strs);
+      let mut typed: Vec<DIDJwk> = Vec::new();
+      let mut ok = true;
+      for s in &strs {
+        match catch(|| DIDJwk::parse(s)) {
+          Ok(Ok(d)) => typed.push(d),
+          Ok(Err(e)) => {
+            ok = false;
+            self.rep.violation("did-jwk-public-key-refused:parse", &format!("DIDJwk::parse({:?}) (JWK {}) failed: {}", s, items[s].text, e), json!({"did":s,"jwk":items[s].text}));
+          }
+          Err(p) => {
+            ok = false;
+            self.rep.violation(&format!("did-jwk-parse-panic@{}", p.file_only()), &format!("DIDJwk::parse({:?}): {}", s, p.msg), json!({"did":s,"jwk":items[s].text}));
+          }
+        }
+      }
+      if !ok {
+        continue;
+      }
+      let as_core: Vec<CoreDID> = typed.iter().cloned().map(CoreDID::from).collect();
+      let class = format!("sp{}|sib{}|oth{}|resp{}", spellings, siblings, others, respelled.min(4));
+      let (fl, b) = &built[rng.usize(4)];
+      self.jwk_list_case(b, *fl, &typed, &strs, &items, "jwk", &class);
+      let (fl, b) = &built[rng.usize(4)];
+      self.jwk_list_case(b, *fl, &as_core, &strs, &items, "core", &class);
+    }
+  }
+}
+
+// ===========================================================================
+// Long lists and lists of look-alike DIDs
+// ===========================================================================
+
+/// Numbers of distinct DIDs around the sizes at which batching, chunking or capacity limits would sit.
+const LONG_SIZES: [usize; 32] = [
+  13, 15, 16, 17, 31, 32, 33, 50, 63, 64, 65, 66, 96, 100, 101, 127, 128, 129, 130, 192, 200, 255, 256, 257, 300, 512, 513, 1000, 1024, 1025, 2049, 4097,
+];
+
+/// One random table and one list of `n` distinct DIDs (plus duplicates, optionally plus one element that cannot be resolved),
+/// driven on each of `flavours` with a random completion order of all gated handlers.
+fn run_long(cx: &mut Ctx, rng: &mut Rng, n: usize, flavours: &[Flavour], with_failure: bool) {
+  let gating = rng.below(3); // all gated / none / mixed
+  let nm = 1 + rng.usize(4);
+  let mut methods: Vec<&str> = vec!["a", "ab", "key", "pk", "web"];
+  rng.shuffle(&mut methods);
+  let specs: Vec<Spec> = methods[..nm]
+    .iter()
+    .map(|m| Spec {
+      entry: cx.entry(),
+      method: m.to_string(),
+      kind: *rng.pick(&[Kind::Hdoc, Kind::Core, Kind::Picky]),
+      beh: *rng.pick(&[Beh::Echo, Beh::Echo, Beh::Swap, Beh::FailSome]),
+      gated: match gating {
+        0 => true,
+        1 => false,
+        _ => rng.bool(),
+      },
+    })
+    .collect();
+  let table = Table::new(specs);
+  // every method id starts with "ok" (each handler's DID type accepts it) and none ends in "bad"
+  let stem = *rng.pick(&["ok", "ok-", "okx", "ok0", "ok:"]);
+  let mut strs: Vec<String> = (0..n).map(|i| format!("did:{}:{}{}", methods[rng.usize(nm)], stem, i)).collect();
+  let mut picky_ok = true;
+  if with_failure {
+    let failing: Vec<&Spec> = table.eff.values().filter(|s| s.beh == Beh::FailSome).collect();
+    let picky: Vec<&Spec> = table.eff.values().filter(|s| s.kind == Kind::Picky).collect();
+    let bad = match rng.below(3) {
+      0 if !failing.is_empty() => format!("did:{}:ok{}bad", failing[rng.usize(failing.len())].method, n),
+      1 if !picky.is_empty() => {
+        picky_ok = false;
+        format!("did:{}:no{}", picky[rng.usize(picky.len())].method, n)
+      }
+      _ => format!("did:{}:ok{}", rng.pick(&OTHER_METHODS), n),
+    };
+    strs.push(bad);
+  }
+  for _ in 0..rng.usize(n / 8 + 2) {
+    let d = strs[rng.usize(strs.len())].clone();
+    strs.push(d);
+  }
+  rng.shuffle(&mut strs);
+  let distinct: BTreeSet<&String> = strs.iter().collect();
+  let mut order: Vec<String> = distinct
+    .iter()
+    .filter(|d| matches!(table.predict(d), Pred::Call { ref spec, .. } if spec.gated))
+    .map(|d| (*d).clone())
+    .collect();
+  match rng.below(4) {
+    0 => {}                // sorted
+    1 => order.reverse(), // reverse sorted
+    _ => rng.shuffle(&mut order),
+  }
+  let core: Vec<CoreDID> = strs.iter().map(|s| CoreDID::parse(s).expect("harness DID parses")).collect();
+  for (fi, fl) in flavours.iter().enumerate() {
+    let Some(b) = cx.build(*fl, &table) else { return };
+    let hostile = rng.chance(1, 3);
+    if picky_ok && (fi % 2 == 1 || flavours.len() == 1 && rng.bool()) {
+      let typed: Vec<PickyDID> = strs.iter().map(|s| PickyDID::from_str(s).expect("harness DID is acceptable to PickyDID")).collect();
+      cx.multi_case(&b, *fl, &table, &typed, &strs, &order, hostile, true, "picky");
+    } else {
+      cx.multi_case(&b, *fl, &table, &core, &strs, &order, hostile, true, "core");
+    }
+  }
+}
+
+/// Short lists of DIDs that differ only slightly (case, one trailing character, percent-encoding, a leading zero, a further
+/// segment): each is a DID of its own.
+fn run_lookalikes(cx: &mut Ctx, rng: &mut Rng, pool: &[String], flavours: &[Flavour]) {
+  let specs = vec![
+    Spec { entry: cx.entry(), method: "a".into(), kind: Kind::Hdoc, beh: *rng.pick(&[Beh::Echo, Beh::Swap]), gated: rng.bool() },
+    Spec { entry: cx.entry(), method: "a1".into(), kind: Kind::Core, beh: Beh::Echo, gated: rng.bool() },
+    Spec { entry: cx.entry(), method: "ab".into(), kind: Kind::Picky, beh: Beh::Echo, gated: true },
+  ];
+  let table = Table::new(specs);
+  let len = 2 + rng.usize(7);
+  let small: Vec<&String> = (0..2 + rng.usize(4)).map(|_| &pool[rng.usize(pool.len())]).collect();
+  let strs: Vec<String> = (0..len)
+    .map(|_| {
+      let m = if rng.chance(3, 4) { "a" } else { *rng.pick(&["a1", "ab", "aa"]) };
+      format!("did:{}:{}", m, small[rng.usize(small.len())])
+    })
+    .collect();
+  let distinct: BTreeSet<&String> = strs.iter().collect();
+  let mut order: Vec<String> = distinct
+    .iter()
+    .filter(|d| matches!(table.predict(d), Pred::Call { ref spec, .. } if spec.gated))
+    .map(|d| (*d).clone())
+    .collect();
+  rng.shuffle(&mut order);
+  let core: Vec<CoreDID> = strs.iter().map(|s| CoreDID::parse(s).expect("pool DID parses")).collect();
+  let picky: Option<Vec<PickyDID>> = strs.iter().map(|s| PickyDID::from_str(s).ok()).collect();
+  let fl = *rng.pick(flavours);
+  let Some(b) = cx.build(fl, &table) else { return };
+  cx.rep.inc("lookalike_list_cases");
+  match picky {
+    Some(typed) if rng.bool() => cx.multi_case(&b, fl, &table, &typed, &strs, &order, rng.chance(1, 3), true, "picky"),
+    _ => cx.multi_case(&b, fl, &table, &core, &strs, &order, rng.chance(1, 3), true, "core"),
+  }
+}
+
+fn long_section(cx: &mut Ctx, args: &Args, rng: &mut Rng, scale: u64, thorough: bool) {
+  let flavours = [Flavour::SendSync, Flavour::Single];
+  let nshards = args.nshards.max(1);
+  let one = [flavours[(args.shard % 2) as usize]];
+  if scale < 100 {
+    // interpreter-sized: one list just beyond 64 distinct DIDs
+    run_long(cx, rng, 65 + (args.shard % 3) as usize, &one, false);
+  } else if scale < 1000 {
+    run_long(cx, rng, 65 + (args.shard % 4) as usize, &flavours, false);
+    run_long(cx, rng, 129 + args.shard as usize, &one, false);
+    run_long(cx, rng, 70 + args.shard as usize, &one, true);
+  } else {
+    for (i, n) in LONG_SIZES.iter().enumerate() {
+      if args.mine(i as u64) {
+        run_long(cx, rng, *n, &flavours, false);
+        run_long(cx, rng, *n, &one, true);
+      }
+    }
+    let randoms = (if thorough { 4_800 } else { 48 }) / nshards + 1;
+    for k in 0..randoms {
+      let n = LONG_LIST + 1 + if rng.chance(1, 4) { rng.usize(1500) } else { rng.usize(200) };
+      let fail = rng.chance(1, 4);
+      run_long(cx, rng, n, &[flavours[(k % 2) as usize]], fail);
+    }
+    if thorough {
+      // beyond 2^14 and 2^16 distinct DIDs, once each
+      for (i, n) in [16_385usize, 65_537].into_iter().enumerate() {
+        if args.mine(1000 + i as u64) {
+          run_long(cx, rng, n, &one, false);
+        }
+      }
+    }
+  }
+  // look-alike DIDs
+  let candidates = [
+    "ok1", "Ok1", "oK1", "OK1", "ok01", "ok1.", "ok1-", "ok1_", "ok1:0", "ok:1", "ok%31", "OK%31", "ok1%20", "ok1%2F", "ok1%2f", "ok10", "ok1:", "ok1::", "o", "ok", "okl", "okI",
+  ];
+  let pool: Vec<String> = candidates
+    .iter()
+    .filter(|m| matches!(catch(|| CoreDID::parse(format!("did:a:{}", m))), Ok(Ok(ref d)) if d.as_str() == format!("did:a:{}", m)))
+    .map(|m| m.to_string())
+    .collect();
+  cx.rep.note("lookalike_pool", json!(pool));
+  if pool.len() >= 4 {
+    let cases = (if scale < 100 { 2 } else { (if thorough { 64_000 } else { 800 }) * scale / 1000 }) / nshards + 1;
+    for _ in 0..cases {
+      run_lookalikes(cx, rng, &pool, &flavours);
+    }
+  }
+}
+
+// ===========================================================================
 // Workload
 // ===========================================================================
 
@@ -1590,7 +2124,7 @@ fn run_pair(cx: &mut Ctx, built: &[(Flavour, Built)], table: &Table, strs: &[Str
         continue;
       }
       let hostile = (oi + fi) % 3 == 0;
-      cx.multi_case(b, *fl, table, &list, strs, &order, hostile, oi == 0);
+      cx.multi_case(b, *fl, table, &list, strs, &order, hostile, oi == 0, "core");
       if exhaustive && k >= 2 {
         cx.rep.inc("orders_enumerated_exhaustively");
       }
@@ -1610,7 +2144,9 @@ fn main() {
      hand. non-trivial+distinct = classes (flavour, list length, distinct DIDs, multiset of per-DID outcome kinds \
      [unsupported/conversion failure/failing/swapping/CoreDocument/plain x gated/immediate], position of the first failure in the \
      completion order); 'orders' = distinct (flavour, completion permutation of >= 2 pending handlers) pairs; did:jwk classes = (key family, \
-     optional-member mask, whitespace style, private?)",
+     optional-member mask, whitespace style, private?, \\u escapes?); did:jwk list classes = (flavour, input DID type, length, distinct identifiers, \
+     spellings of one key / same-thumbprint siblings / unrelated keys); long lists (more than 12 distinct DIDs, up to 4097 in quick and 65537 in thorough) = \
+     (flavour, input DID type, size bucket, duplicates?, set of outcome kinds, failure met in the completion order?)",
   );
   let mut rng = args.rng(20);
   let thorough = args.thorough;
@@ -1743,6 +2279,19 @@ fn main() {
     for _ in 0..rounds {
       cx.threaded_round(&mut rng, if scale < 1000 { 2 } else { 4 });
     }
+  }
+
+  // ---- E. did:jwk lists of look-alike identifiers (own PRNG streams: the sections above keep their workload)
+  {
+    let mut rng_e = args.rng(21);
+    let n_lists = sc(if tiny { 400 } else if thorough { 160_000 } else { 3_200 }) / args.nshards.max(1) + 2;
+    cx.jwk_spelling_section(&mut rng_e, n_lists);
+  }
+
+  // ---- F. long lists (well beyond any plausible batch size) and short lists of look-alike DIDs
+  {
+    let mut rng_f = args.rng(22);
+    long_section(&mut cx, &args, &mut rng_f, scale, thorough);
   }
   cx.rep.note("scale_permille", json!(scale));
   cx.rep.finish();
